@@ -12,6 +12,7 @@ import (
 	"verif/harness/internal/c06"
 	"verif/harness/internal/c07"
 	"verif/harness/internal/c08"
+	"verif/harness/internal/c10"
 	"verif/harness/internal/c11"
 	"verif/harness/internal/c12"
 	"verif/harness/internal/c13"
@@ -44,6 +45,8 @@ func main() {
 		os.Exit(c15.Main(os.Args[2:]))
 	case "c19":
 		os.Exit(c19.Main(os.Args[2:]))
+	case "c10":
+		os.Exit(c10.Main(os.Args[2:]))
 	case "c16":
 		os.Exit(c16.Main(os.Args[2:]))
 	case "c17":
